@@ -372,10 +372,10 @@ prop(
 prop(
     id="C15", module="Properties.C15", vfile="Properties/C15.v", level="proof", subcmd="c15",
     theorems=["C15_never_blocked_with_work", "C15_progress", "C15_shutdown_terminates"],
-    counts={"quick": 160, "thorough": 10000, "search": 800},
+    counts={"quick": 96, "thorough": 10000, "search": 800},
     rule="runs with the four background workers and no stepping from outside: 1-3 client threads commit 20-160 transactions of 0-9 keys with value lengths from 16 bytes to 3 MB (in a sixth of the runs one "
-         "transaction of about 18 MB, above the 16 MiB queue limit), pauses of 0-2 ms after a third of the commits, always_flush on in a third of the runs; after the last commit returned no call is made "
-         "into the library and copies of the directory taken after 50 ms .. 8 s must contain every commit; then the handle is dropped and the directory reopened. A per-run watchdog (120 s) reports a call "
+         "transaction of about 18 MB, above the 16 MiB queue limit), pauses of 0-2 ms after a third of the commits, always_flush on in a third of the runs; in half of the runs the clients run in a child process which, once they are done, makes no "
+         "further call and is killed after a quiet period of 0.3-2.5 s: the directory (a crash image) must hold every commit; in the other half the handle is dropped and the directory reopened. A per-run watchdog (120 s) reports a call "
          "that does not return. A run is non-trivial when more than 4 MiB were committed",
     assumptions=["the theorems are about ONE stage and its producer; the pipeline is a chain of such stages (each stage's work step is the next stage's producer); the back-pressure waits (commit queue full, "
                  "too many logs waiting for cleanup - the site of the repaired F6) are exercised by the runs but not modelled",
